@@ -100,6 +100,11 @@ def c06(tier, seed):
         S("MaizeGDD", "SandyLoam", seed=seed + 25, regime="hot", seasons=2, irr={"method": 4, "kw": {"NetIrrSMT": 60}}, iwc={"wc_type": "Pct", "value": [20]}),
         S("SugarBeet", "SiltClayLoam", seed=seed + 26, irr={"method": 3, "schedule": sched, "kw": {"MaxIrr": 35}}, seasons=2),
     ]
+    # a dry-matter percentage of the harvested product overridden to values outside the range of the built-in crops (small, fractional, large):
+    # fresh yield = dry yield / (YldWC / 100) for whatever YldWC the user configured
+    scs.append(S("Tomato", "Loam", seed=seed + 40, crop_kw={"YldWC": 3}, irr={"method": 1, "kw": {"SMT": [70] * 4}}))
+    scs.append(S("Wheat", "SandyLoam", seed=seed + 41, crop_kw={"YldWC": 1.25}, seasons=2))
+    scs.append(S("Maize", "SiltLoam", seed=seed + 42, crop_kw={"YldWC": 99.5}))
     # the yield-formation productivity factor (WPy < 100) for determinate and indeterminate crops, built-in and by parameter override
     for j, (crop, kw) in enumerate([("Cotton", None), ("DryBean", None), ("Quinoa", None), ("Soybean", None), ("Sunflower", None),
                                     ("Tomato", {"WPy": 55}), ("Wheat", {"WPy": 70, "Determinant": 0}), ("Potato", {"WPy": 80})]):
@@ -170,6 +175,10 @@ def c13(tier, seed):
     for j, (smt, pct) in enumerate([([70, 70, 70, 0], 40), ([10, 80, 80, 90], 50), ([90, 20, 60, 40], 35), ([30, 90, 30, 90], 45)]):
         scs.append(S(["Maize", "Wheat", "Tomato", "Sorghum"][j], ["SandyLoam", "Loam", "Clay", "Sand"][j], seed=seed + 70 + j, regime="arid",
                      irr={"method": 1, "kw": {"SMT": smt}}, iwc={"wc_type": "Pct", "value": [pct]}, seasons=2, off_season=(j % 2 == 1)))
+    # a zero target (allowable depletion = 100 % of TAW) on a root zone at wilting point: the estimated depletion (incl. the day's demand) exceeds TAW,
+    # so the threshold IS exceeded and water is due - the boundary value of the threshold list
+    scs.append(S("Wheat", "SandyLoam", seed=seed + 75, regime="arid", irr={"method": 1, "kw": {"SMT": [0, 0, 0, 0], "MaxIrr": 30}}, iwc={"value": ["WP"]}, seasons=2))
+    scs.append(S("Maize", "Loam", seed=seed + 76, regime="arid", irr={"method": 1, "kw": {"SMT": [0, 50, 0, 50]}}, iwc={"value": ["WP"]}))
     # schedules with records outside the simulation window (before the start, after the end), several seasons
     for j, (crop, seasons, lead) in enumerate([("Maize", 2, 0), ("Sorghum", 3, 12), ("Tomato", 2, 0)]):
         p0 = dt.date(2001, 4, 20)
